@@ -3,6 +3,7 @@
    the coaxial index under exchange of its two axes, finite strain of rotations / stretches /
    any F given by a singular value decomposition. *)
 From Coq Require Import Reals ZArith List Bool Lra Lia Permutation Psatz.
+Require Import Coq.nsatz.Nsatz.
 From PV Require Import Num NumR Model_diag Proofs_diag.
 Import ListNotations.
 Open Scope R_scope.
@@ -213,6 +214,87 @@ Section PGR.
     - intros H. apply R1 in H as [-> ->]. split; unfold Rdiv; ring.
   Qed.
 End PGR.
+
+(* R = 0 (zero smallest eigenvalue) iff all axes of the chosen kind lie in one plane; the unit normal is
+   the first eigenvector of ANY orthonormal eigen-decomposition `e` of the scatter matrix (e.g. LAPACK's) *)
+Fixpoint dotsq (l : list V3) (u : V3) : R :=
+  match l with [] => 0 | a :: t => dot3 a u * dot3 a u + dotsq t u end.
+
+Lemma qf_S_of (l : list V3) (u : V3) : qf (S_of l) u = dotsq l u.
+Proof.
+  induction l as [|a t IH]; cbn [S_of fold_right dotsq].
+  - d3 u. cbv [qf symv zero6]. dunf. ring.
+  - fold (S_of t). rewrite qf_add6, qf_outer6, IH. reflexivity.
+Qed.
+
+Lemma dotsq_nonneg (l : list V3) (u : V3) : 0 <= dotsq l u.
+Proof. induction l as [|a t IH]; cbn [dotsq]; [lra|]. nra. Qed.
+
+Lemma dotsq_zero (l : list V3) (u : V3) : dotsq l u = 0 <-> Forall (fun a : V3 => dot3 a u = 0) l.
+Proof.
+  induction l as [|a t IH]; cbn [dotsq].
+  - split; [constructor|reflexivity].
+  - pose proof (dotsq_nonneg t u). split.
+    + intros H0. set (x := dot3 a u) in *. change (T NumR) with R in *.
+      assert (Hx : 0 <= x * x) by nra. assert (Hz : x * x = 0) by lra.
+      constructor; [apply Rmult_integral in Hz; tauto|apply IH; lra].
+    + intros H0. inversion H0 as [|? ? Ha Ht]; subst. apply IH in Ht. rewrite Ha, Ht. ring.
+Qed.
+
+Lemma symv_S_of_null (l : list V3) (u : V3) : Forall (fun a : V3 => dot3 a u = 0) l -> symv (S_of l) u = (0, 0, 0).
+Proof.
+  induction l as [|a t IH]; intros H; cbn [S_of fold_right].
+  - d3 u. cbv [symv zero6]. split_tuple; ring.
+  - inversion H as [|? ? Ha Ht]; subst. fold (S_of t). specialize (IH Ht).
+    destruct (S_of t) as [[[[[s00 s10] s11] s20] s21] s22]. d3 a. d3 u.
+    cbv [symv add6 outer6] in *. dunf. injection IH as I1 I2 I3. clear H Ht.
+    set (d := x * x0 + y * y0 + z * z0) in *.
+    split_tuple.
+    + transitivity (x * d + (s00 * x0 + s10 * y0 + s20 * z0)); [subst d; ring|rewrite Ha, I1; ring].
+    + transitivity (y * d + (s10 * x0 + s11 * y0 + s21 * z0)); [subst d; ring|rewrite Ha, I2; ring].
+    + transitivity (z * d + (s20 * x0 + s21 * y0 + s22 * z0)); [subst d; ring|rewrite Ha, I3; ring].
+Qed.
+
+Lemma null_vector_det S (u : V3) : symv S u = (0, 0, 0) -> dot3 u u = 1 -> det6 S = 0.
+Proof.
+  d6 S. d3 u. cbv [symv det6]. dunf. intros H N. injection H as H1 H2 H3. nsatz.
+Qed.
+
+Theorem pgr_coplanar_iff (eigvalsh : S3 -> V3) os r (e : EV) :
+  os <> [] -> Forall unit_rows os ->
+  vals_spec (scatter os r) (eigvalsh (scatter os r)) -> eig_spec (scatter os r) e ->
+  let '(P, G, Rn) := symmetry_pgr eigvalsh os r in
+  (Rn = 0 <-> exists u : V3, dot3 u u = 1 /\ Forall (fun o => dot3 (rowv r o) u = 0) os) /\
+  (Rn = 0 -> Forall (fun o => dot3 (rowv r o) (fst (fst (snd e))) = 0) os).
+Proof.
+  intros Hne Hu Hs He. unfold symmetry_pgr.
+  destruct (eigvalsh (scatter os r)) as [[l1 l2] l3] eqn:E.
+  destruct (scatter_vals_props os r l1 l2 l3 Hne Hu Hs) as (A & B & C & D & Hn).
+  destruct (vals_coeffs _ _ _ _ Hs) as (_ & _ & Hdet).
+  cbv [pgr_of]; numR.
+  assert (R0 : 3 * l1 / (l3 + l2 + l1) = 0 <-> l1 = 0).
+  { split.
+    - intros H. apply (f_equal (fun x => x * (l3 + l2 + l1))) in H.
+      unfold Rdiv in H. rewrite Rmult_assoc, Rinv_l in H by lra. lra.
+    - intros ->. unfold Rdiv. ring. }
+  destruct e as [[[m1 m2] m3] [[v1 v2] v3]].
+  pose proof He as (Hv & [B1 N1] & _).
+  pose proof (vals_unique _ _ _ Hs Hv) as Em. injection Em as E1 E2 E3. subst m1 m2 m3.
+  assert (Hfwd : l1 = 0 -> Forall (fun o => dot3 (rowv r o) v1 = 0) os).
+  { intros Z.
+    assert (Q : qf (scatter os r) v1 = 0).
+    { unfold qf. rewrite B1, dot3_scale3_r, Z. ring. }
+    rewrite scatter_R, scatterR_S_of, qf_S_of in Q. apply dotsq_zero in Q. rewrite Forall_map in Q. exact Q. }
+  split; [split|].
+  - intros H. apply R0 in H. exists v1. split; [exact N1|]. now apply Hfwd.
+  - intros (u & Nu & Hp). apply R0.
+    assert (Hnull : symv (scatter os r) u = (0, 0, 0)).
+    { rewrite scatter_R, scatterR_S_of. apply symv_S_of_null. rewrite Forall_map. exact Hp. }
+    pose proof (null_vector_det _ u Hnull Nu) as Dz. rewrite Hdet in Dz.
+    destruct (Req_dec l1 0) as [|Hnz]; [assumption|].
+    assert (0 < l1) by lra. assert (0 < l1 * l2 * l3) by (apply Rmult_lt_0_compat; [apply Rmult_lt_0_compat|]; lra). lra.
+  - intros H. apply R0 in H. cbn [snd fst]. now apply Hfwd.
+Qed.
 
 (* ------------------------------------------------------------------------- *)
 (* coaxial index: exchanging the two axes; the same axis twice                *)
